@@ -107,6 +107,25 @@ func registerRoaringStubs(e *Engine) {
 		c.t = Bin("bvxor", c.t, mask)
 		return nil
 	})
+	rangeMask := func(lo, hi *Term) *Term {
+		mask := BV(roaringW, 0)
+		for i := 0; i < roaringW; i++ {
+			in := And(Bin("bvule", lo, BV(64, uint64(i))), Bin("bvult", BV(64, uint64(i)), hi))
+			mask = Bin("bvor", mask, Ite(in, BV(roaringW, 1<<uint(i)), BV(roaringW, 0)))
+		}
+		return mask
+	}
+	e.reg(mt+"RemoveRange", func(fr *frame, args []value) value {
+		c := roaringOf(args[0])
+		c.t = Bin("bvand", c.t, Un("bvnot", rangeMask(termOf(args[1]), termOf(args[2]))))
+		return nil
+	})
+	e.reg(mt+"Remove", func(fr *frame, args []value) value {
+		c := roaringOf(args[0])
+		m, in := bitOf(termOf(args[1]))
+		c.t = Ite(in, Bin("bvand", c.t, Un("bvnot", m)), c.t)
+		return nil
+	})
 	// serialisation of the model: one byte holding the bit-vector (the roaring wire
 	// format itself is the library's business, outside every claim)
 	e.reg(mt+"ToBytes", func(fr *frame, args []value) value {
